@@ -59,12 +59,16 @@ template <class Scalar> static std::vector<Outcome> run_t(const Spec &s, const N
   if (!c.vec.empty()) { std::vector<Scalar> v; for (auto x : c.vec) v.push_back((Scalar)x); Quiet q; masa_set_vec<Scalar>("vec_data", v); std::vector<Scalar> back; masa_get_vec<Scalar>("vec_data", back); std::vector<Q> qv; for (auto x : back) qv.push_back(Q((long double)x)); set_current_vec(qv); }
   auto names = param_names(sizeof(Scalar) > 8); auto held = read_params<Scalar>(names);
   PM p; for (auto &kv : held) p[kv.first] = Q(kv.second);     // the oracle sees the parameters the library holds
+  // ... and the library must hold them at the working precision of the interface they were passed through
+  for (auto &kv : c.params) { auto it = held.find(kv.first); if (it == held.end()) continue; Scalar want = (Scalar)kv.second, got = (Scalar)it->second; if (memcmp(&want, &got, sizeof(Scalar) > 8 ? 10 : 8) != 0 && !(want == 0 && got == 0)) { Outcome o; o.label = "parameter-store:" + kv.first; o.lib = it->second; o.ref = Q(kv.second); o.err = 1e300; o.status = 1; o.note = "masa_set_param/masa_get_param do not preserve the value at the precision of this scalar type"; out.push_back(o); break; } }
   Scalar pts[4]; Q ptq[4]; for (int i = 0; i < 4; i++) { pts[i] = (Scalar)c.pt[i]; ptq[i] = Q((long double)pts[i]); }
   long double ptl[4]; double ptd[4]; for (int i = 0; i < 4; i++) { ptl[i] = (long double)pts[i]; ptd[i] = (double)pts[i]; }
   auto call = [&](const Ev &e, const long double *al, const double *ad) -> long double { Quiet q; if (sizeof(Scalar) > 8) return e.ld(al); return (long double)e.d(ad); };
+  std::string prefix;
+  auto evaluate_all = [&]() {
   for (auto &e : s.evals) {
     if (!wanted(e, prop)) continue; if (!c.only.empty() && c.only != e.label) continue;
-    Outcome o; o.label = e.label;
+    Outcome o; o.label = prefix + e.label; o.finding_cell = (bool)e.asbuilt;
     try {
       if (e.skip && e.skip(p, ptq)) { o.status = 3; o.note = "within 1e-6 of a switching surface of the model"; out.push_back(o); continue; }
       o.lib = call(e, ptl, ptd);
@@ -84,6 +88,15 @@ template <class Scalar> static std::vector<Outcome> run_t(const Spec &s, const N
     } catch (std::exception &ex) { o.status = 1; o.err = 1e300; o.note = std::string("exception: ") + ex.what(); }
     out.push_back(o);
   }
+  };
+  evaluate_all();
+  // Second phase on the SAME handle: every parameter is changed through masa_set_param (x 1.0625; admissibility is preserved because all
+  // amplitudes and offsets scale alike) and every evaluator is called again at the SAME point. A value cached per object or per process
+  // (last point, last time, first Gamma seen) and not refreshed by masa_set_param shows up here, reproducibly from this one case.
+  if (c.only.empty() && s.name != "sod_1d") {
+    { Quiet q; for (auto &kv : held) masa_set_param<Scalar>(kv.first, (Scalar)(kv.second * 1.0625L)); }
+    auto held2 = read_params<Scalar>(names); p.clear(); for (auto &kv : held2) p[kv.first] = Q(kv.second);
+    prefix = "after set_param: "; evaluate_all(); prefix.clear(); }
   if (s.relations && c.only.empty() && prop != "C07") { try { s.relations(c, p, out, K); } catch (std::exception &ex) { Outcome o; o.label = "relations"; o.status = 1; o.err = 1e300; o.note = ex.what(); out.push_back(o); } }
   return out;
 }
